@@ -354,7 +354,7 @@ def analyse(res):
     keys = ("create", "rcmd_lock", "cbegin", "cend", "upd_lock", "upd_unlock", "res_lock", "dbegin", "dend", "eof")
     H = [dict((k, None) for k in keys) for _ in range(n)]
     for h in H:
-        h.update(cend_ok=None, polled=False, out=b"", err=b"", fwd=[])
+        h.update(cend_ok=None, polled=False, out=b"", err=b"", fwd=[], timedout=False)
     clock = case.get("clock0", 1000000)
     episodes, delivers = [], []
     pending = {}
@@ -377,6 +377,8 @@ def analyse(res):
                 delivers.append({"pos": pos, "sig": sg, "clock": clock, "dup": pending.get(sg, 0) > 0})
                 pending[sg] = pending.get(sg, 0) + 1
             continue
+        if th == "G" and e == "kill" and a.startswith("W") and a[1:].isdigit() and int(a[1:]) < n:
+            H[int(a[1:])]["timedout"] = True       # the watchdog interrupts the worker: connect / command time-out
         if th == "D":
             if e == "create" and a.startswith("W"):
                 H[int(a[1:])]["create"] = pos
@@ -414,6 +416,8 @@ def analyse(res):
                     h["out"] += b
                 elif a == "2":
                     h["err"] += b
+                    if b"timeout" in b:
+                        h["timedout"] = True    # noticed by the worker itself at the top of its poll loop
             elif e == "exit":
                 other_exit = (th, a)
             continue
@@ -689,7 +693,8 @@ def offenders(res, base):
                     out.append(("not-started", "host %d was not canceled and never had its command started" % i))
                 elif h["cbegin"] is not None and h["dend"] is None:
                     out.append(("not-torn-down", "dsh() returned before host %d was torn down" % i))
-                elif want is not None and ran and got != want:
+                elif want is not None and ran and got != want and not (h["timedout"] and want.startswith(got)):
+                    # (a host pdsh gave up on after a time-out did not complete: what it printed before is relayed)
                     out.append(("output-corrupted", "host %d completed with output %r instead of %r" % (i, got[:80], want[:80])))
                 elif want is not None and h["cbegin"] is not None and not ran and i not in marked_any:
                     out.append(("output-missing", "host %d was not canceled but its output was not relayed" % i))
